@@ -18,6 +18,7 @@ import (
 	avstypes "github.com/ExocoreNetwork/exocore/x/avs/types"
 	delegationtypes "github.com/ExocoreNetwork/exocore/x/delegation/types"
 	epochstypes "github.com/ExocoreNetwork/exocore/x/epochs/types"
+	oraclekeeper "github.com/ExocoreNetwork/exocore/x/oracle/keeper"
 )
 
 // RestakingStores are the module stores whose bytes the atomicity / export monitors compare.
@@ -273,7 +274,9 @@ type Snap struct {
 	Epochs map[string]epochstypes.EpochInfo
 	AVS    map[string]avstypes.AVSInfo
 	Supply sdkmath.Int // total supply of the base denom
-	Height int64
+	// OracleMem is the canonical dump (hook H1) of the oracle's process-level state at snapshot time
+	OracleMem string
+	Height    int64
 }
 
 var LedgerStores = []string{"assets", "delegation", "operator", "dogfood", "avs", "oracle", "reward", "exoslash", "epochs", "feedistribution", "exomint"}
@@ -283,6 +286,7 @@ func (c *Chain) Snapshot() *Snap {
 	raw := c.DumpStores(ctx, LedgerStores)
 	s := &Snap{Raw: raw, Ledger: c.ParseLedger(ctx, raw), Op: ParseOpState(raw), Dog: ParseDogState(raw), AVS: ParseAVS(raw), Height: c.Height(), Epochs: map[string]epochstypes.EpochInfo{}}
 	s.Supply = c.App.BankKeeper.GetSupply(ctx, utils.BaseDenom).Amount
+	s.OracleMem = string(oraclekeeper.VerifOracleDump())
 	for k, v := range raw["epochs"] {
 		if len(k) > 0 && k[0] == epochstypes.KeyPrefixEpoch[0] {
 			var e epochstypes.EpochInfo
